@@ -36,7 +36,7 @@ class ExecCore:
         self._static_busy: set = set()
         self._abstract: Dict[str, bool] = {}
         self._feas = z3.Solver()
-        self._feas.set("timeout", 150)
+        self._feas.set("rlimit", 60000)
         self.inline_depth_limit = 14
         self.uf_cache: Dict[str, z3.FuncDeclRef] = {}
         self.global_axioms: List[z3.BoolRef] = []
@@ -76,14 +76,12 @@ class ExecCore:
         if q not in V.REC_SORTS:
             c = self.tree.cls(q)
             flds = [(n, self.type_of_annotation(a, c.module, c)) for n, a in c.fields]
-            d = z3.Datatype("R_" + q.replace(".", "_"))
             decl = []
             for n, t in flds:
                 decl.append((n, V.sort_of(t)))
                 if t.kind == "opt":
                     decl.append((n + "$none", z3.BoolSort()))
-            d.declare("mk", *decl)
-            V.REC_SORTS[q] = (d.create(), flds)
+            V.REC_SORTS[q] = (V.make_datatype("R_" + q.replace(".", "_"), decl), flds)
         return V.REC_SORTS[q]
 
     def rec_field(self, v: Val, name: str) -> Val:
@@ -343,9 +341,7 @@ class ExecCore:
             return basic[name]
         if name == "glkey":
             if "glkey" not in self.uf_cache:
-                d = z3.Datatype("GLKey")
-                d.declare("mk", ("ev", z3.IntSort()), ("haslot", z3.BoolSort()), ("lot", z3.IntSort()))
-                self.uf_cache["glkey"] = d.create()
+                self.uf_cache["glkey"] = V.make_datatype("GLKey", [("ev", z3.IntSort()), ("haslot", z3.BoolSort()), ("lot", z3.IntSort())])
             return self.uf_cache["glkey"]
         for q in list(self.tree.classes):
             c = self.tree.classes[q]
@@ -442,9 +438,8 @@ class ExecCore:
     def ygl_key(self, y: Val):
         sort, _ = self.rec_sort(y.ty.args[0])
         if "yglkey" not in self.uf_cache:
-            d = z3.Datatype("YGLKey")
-            d.declare("mk", ("year", z3.IntSort()), ("asset", V.StrS), ("tt", V.sort_of(self.rec_field(y, "transaction_type").ty)), ("lt", z3.BoolSort()))
-            self.uf_cache["yglkey"] = d.create()
+            self.uf_cache["yglkey"] = V.make_datatype("YGLKey", [("year", z3.IntSort()), ("asset", V.StrS),
+                                                                  ("tt", V.sort_of(self.rec_field(y, "transaction_type").ty)), ("lt", z3.BoolSort())])
         K = self.uf_cache["yglkey"]
         return K.mk(sort.year(y.t), sort.asset(y.t), sort.transaction_type(y.t), sort.is_long_term_capital_gains(y.t))
 
@@ -668,7 +663,7 @@ class ExecCore:
         nl = len(V.STR_LITS) + (10000 if V.CASE_USED[0] else 0) + 100000 * len(self.global_axioms)
         if getattr(self, "_feas_lits", None) != nl:
             self._feas = z3.Solver()
-            self._feas.set("timeout", 80)
+            self._feas.set("rlimit", 60000)
             # pruning only: quantified axioms are left out (fewer prunings, never an unsound one)
             self._feas.add(*[a for a in V.str_axioms() if not z3.is_quantifier(a)])
             self._feas.add(*[a for a in self.global_axioms if not z3.is_quantifier(a)])
